@@ -724,6 +724,10 @@ impl<'a> CompileState<'a> {
                 if let Some(field_count) = NonZeroUsize::new(field_count) {
                     self.append_instruction(Instruction::MStructGet(field_count));
                     self.append_instruction(Instruction::MStructSet(field_count));
+                } else {
+                    // Nothing to copy: drop the source struct so that only the
+                    // new (empty) struct is left on the stack.
+                    self.append_instruction(Instruction::Pop);
                 }
             }
             thir::ExprKind::Cast(lhs, rhs_ident) => {
